@@ -107,6 +107,13 @@ fn check_plan_scalar(n: usize) -> Option<String> {
     None
 }
 
+
+// Reads the slice through volatile loads so that a write through a shared reference (UB the optimizer may otherwise
+// "reason away") is observed.
+fn volatile_bits<T: Copy>(v: &[Complex<T>]) -> Vec<[u8; 32]> {
+    let sz = std::mem::size_of::<Complex<T>>();
+    v.iter().map(|x| { let mut out = [0u8; 32]; let p = x as *const Complex<T> as *const u8; for i in 0..sz.min(32) { out[i] = unsafe { std::ptr::read_volatile(p.add(i)) }; } out }).collect()
+}
 // ---- stubs obeying (and checking) the Fft contract, used to replay wrapper plumbing ---------------------------------
 pub struct StubFft { pub len: usize, pub ip: usize, pub oop: usize, pub imm: usize, pub dir: FftDirection }
 impl Length for StubFft { fn len(&self) -> usize { self.len } }
@@ -321,13 +328,13 @@ fn shapes_one(desc: &str, f: &dyn Fft<f64>) -> Option<String> {
                 let case = format!("{desc}.{name}(data.len()={dl}, output.len()={ol}, scratch.len()={sl}) [len {n}, advertised scratch {adv}]");
                 eprintln!("CASE {case}");
                 let (mut a, mut b, mut c) = (guarded(dl), guarded(ol), guarded(sl));
-                let a0 = a.clone();
+                let before = volatile_bits(&a);
                 let r = quiet(|| {
                     let (x, y, z) = (&mut a[G..G + dl], &mut b[G..G + ol], &mut c[G..G + sl]);
-                    match entry { 0 => f.process_with_scratch(x, z), 1 => f.process_outofplace_with_scratch(x, y, z), _ => f.process_immutable_with_scratch(x, y, z) }
+                    match entry { 0 => f.process_with_scratch(x, z), 1 => f.process_outofplace_with_scratch(x, y, z), _ => f.process_immutable_with_scratch(std::hint::black_box(&*x), y, z) }
                 });
                 if !intact(&a, dl) || !intact(&b, ol) || !intact(&c, sl) { return Some(format!("{case}: memory outside the caller's slices was written")); }
-                if entry == 2 && a.iter().zip(a0.iter()).any(|(p, q)| p.re.to_bits() != q.re.to_bits() || p.im.to_bits() != q.im.to_bits()) { return Some(format!("{case}: the immutable input was modified")); }
+                if entry == 2 && volatile_bits(std::hint::black_box(&a)) != before { return Some(format!("{case}: the immutable input was modified")); }
                 match r {
                     Ok(()) => if !well { return Some(format!("{case}: ill-shaped call returned normally")); },
                     Err(e) => if well { return Some(format!("{case}: well-shaped call panicked: {}", panic_msg(e))); },
@@ -481,12 +488,13 @@ pub mod simd {
                 eprintln!("CASE {case}");
                 let (mut a, mut b, mut c) = (guarded(dl, 0), guarded(ol, 1000), guarded(sl, 2000));
                 let a0 = a.clone();
+                let before = super::volatile_bits(&a);
                 let r = quiet(|| {
                     let (x, y, z) = (&mut a[G..G + dl], &mut b[G..G + ol], &mut c[G..G + sl]);
-                    match entry { 0 => f.process_with_scratch(x, z), 1 => f.process_outofplace_with_scratch(x, y, z), _ => f.process_immutable_with_scratch(x, y, z) }
+                    match entry { 0 => f.process_with_scratch(x, z), 1 => f.process_outofplace_with_scratch(x, y, z), _ => f.process_immutable_with_scratch(std::hint::black_box(&*x), y, z) }
                 });
                 if !intact(&a, dl) || !intact(&b, ol) || !intact(&c, sl) { return Some(format!("{case}: memory outside the caller's slices was written")); }
-                if entry == 2 && a.iter().zip(a0.iter()).any(|(p, q)| bits(p.re) != bits(q.re) || bits(p.im) != bits(q.im)) { return Some(format!("{case}: the immutable input was modified")); }
+                if entry == 2 && super::volatile_bits(std::hint::black_box(&a)) != before { return Some(format!("{case}: the immutable input was modified")); }
                 match r {
                     Ok(()) => {
                         if !well { return Some(format!("{case}: ill-shaped call returned normally")); }
